@@ -159,3 +159,25 @@ package actor
 //@   at call 1 of NewRelocationFailed ghost rl_built = rl_built + 1
 //@   ensures releases-the-job-exactly-once: rl_released == 1
 //@   ensures at-most-one-failure-event: rl_built <= 1
+
+// recreating one relocated actor on this node: success is reported only when the
+// actor was spawned here, or when the directory entry that blocked the spawn turned
+// out - without any registry error - to be genuinely owned by a live node; a registry
+// error while releasing the departed node's stale entry always surfaces (the caller
+// records the actor as failed), it is never swallowed into a success
+//@ ghost local sr_err error
+//@ ghost local sr_released bool
+//@ ghost local sr_proceed bool
+//@ ghost local sr_rerr error
+
+//@ func (*actorSystem).spawnRelocatedActor(x, ctx, name, actor, departedNode, spawnOpts)
+//@   bounds off
+//@   ghost entry sr_released = false
+//@   at call 1 of (*actorSystem).Spawn assert spawns-under-the-actors-own-name: arg2 == name
+//@   at call 1 of (*actorSystem).Spawn ghost sr_err = result1
+//@   at call 1 of (*actorSystem).Spawn ghost sr_released = false
+//@   at call 1 of (*actorSystem).releaseDepartedEntry assert releases-the-entry-of-that-actor-at-the-departed-node: arg2 == name && arg3 == departedNode
+//@   at call 1 of (*actorSystem).releaseDepartedEntry ghost sr_proceed = result0
+//@   at call 1 of (*actorSystem).releaseDepartedEntry ghost sr_rerr = result1
+//@   at call 1 of (*actorSystem).releaseDepartedEntry ghost sr_released = true
+//@   ensures success-means-running-here-or-owned-elsewhere: result == nil ==> sr_err == nil || (sr_released && sr_rerr == nil && !sr_proceed)
